@@ -290,7 +290,52 @@ pub fn events(args: &[String]) {
             }
         }
     }
+    // event functions whose values at the two ends of a step differ by many orders of magnitude (one-sided saturating:
+    // g = exp(k (u - c)) - 1 with u = t or a ramp state): the interpolation steps of the root finder become tiny while the
+    // bracket is still wide, so a stop test on the size of the last correction would end the search far from the zero.
+    // The zero is simple and known (u = c), so the reported time is compared with it.
+    {
+        let mut n = 0;
+        for method in ALL_METHODS {
+            if method == Method::RK4 { continue; }
+            for k in [20.0, 60.0, 250.0, -40.0, -150.0] {
+                for (xend, frac) in [(4.0, 0.37), (4.0, 0.81), (-3.0, 0.52)] {
+                    for use_state in [false, true] {
+                        let c0 = frac * xend;
+                        let p = HardEv { k, c: c0, use_state };
+                        let o = Options::builder().method(method).rtol(1e-3).atol(1e-6).build();
+                        let mut why = String::new();
+                        match std::panic::catch_unwind(std::panic::AssertUnwindSafe(|| solve_ivp(&p, 0.0, xend, &[0.0, 1.0], o))) {
+                            Ok(Ok(sol)) => {
+                                let te = &sol.t_events[0];
+                                // the ramp state is integrated exactly up to rounding by every method (y0' = 1)
+                                let tol = if use_state { 1e-8 } else { 1e-9 } * (1.0 + c0.abs());
+                                if te.len() != 1 { why = format!("g = exp({} (u - {})) - 1: {} events reported, expected exactly one", k, c0, te.len()); }
+                                else if (te[0] - c0).abs() > tol { why = format!("g = exp({} (u - {})) - 1: event located at t = {}, {:.3e} away from the zero (g there = {:e})", k, c0, te[0], (te[0] - c0).abs(), (k * (te[0] - c0)).exp() - 1.0); }
+                            }
+                            Ok(Err(e)) => why = format!("solve_ivp error {:?}", e),
+                            Err(_) => why = "solve_ivp panicked".into(),
+                        }
+                        println!("{{\"kind\":\"ev\",\"case\":{},\"problem\":\"Ramp\",\"method\":\"{}\",\"x0\":0,\"xend\":{},\"k\":{},\"use_state\":{},\"branch\":\"saturating-event\",\"finding_key\":\"{}\",\"ok\":{},\"why\":{:?}}}",
+                            620000 + n, method_name(method), xend, k, use_state, if why.is_empty() { "" } else { "c08-hard-root" }, why.is_empty(), why);
+                        n += 1;
+                    }
+                }
+            }
+        }
+    }
     first_output_before_terminal();
+}
+
+/// y0' = 1 (a ramp), y1' = -y1; one event function g = exp(k (u - c)) - 1 with u = t or u = y0
+struct HardEv { k: f64, c: f64, use_state: bool }
+impl IVP for HardEv {
+    fn ode(&self, _x: f64, y: &[f64], d: &mut [f64]) { d[0] = 1.0; d[1] = -y[1]; }
+    fn n_events(&self) -> usize { 1 }
+    fn events(&self, x: f64, y: &[f64], out: &mut [f64]) {
+        let u = if self.use_state { y[0] } else { x };
+        out[0] = (self.k * (u - self.c)).exp() - 1.0;
+    }
 }
 
 /// C10 with `first_step`: when the first trial step is rejected, the first output x0 + first_step is an interpolated point
